@@ -19,6 +19,7 @@ import (
 	"github.com/opencontainers/go-digest"
 
 	"github.com/regclient/regclient/config"
+	"github.com/regclient/regclient/internal/reqmeta"
 	"github.com/regclient/regclient/scheme"
 	"github.com/regclient/regclient/scheme/reg"
 	"github.com/regclient/regclient/types/descriptor"
@@ -56,6 +57,7 @@ type l2Scn struct {
 	Faults  []l2Fault  `json:"faults"`
 	Persist *l2Persist `json:"persist,omitempty"`
 	DIus    int        `json:"di_us"`
+	Conc    int        `json:"conc"` // ReqConcurrent of every host (0: the default, 3)
 }
 
 const (
@@ -277,6 +279,28 @@ var l2Ops = map[string]l2Op{
 		d, err := rg.BlobPut(ctx, r, descriptor.Descriptor{}, bytes.NewReader(f.newBlob))
 		return d.Digest.String(), err
 	}},
+	// a source that is only an io.Reader (stdin, a pipe): the single PUT cannot be repeated.  As many
+	// uploads as the host has throttle slots, then an ordinary request to the same host.
+	"blob-put-oneshot": {run: func(ctx context.Context, rg *reg.Reg, f *fixture, r ref.Ref) (string, error) {
+		n := 3
+		if h := ctx.Value(concKey{}); h != nil {
+			n = h.(int)
+		}
+		var first error
+		for i := 0; i < n; i++ {
+			blob := append([]byte{byte('0' + i)}, f.newBlob...)
+			_, err := rg.BlobPut(ctx, r, desc(mtLayer, blob), struct{ io.Reader }{bytes.NewReader(blob)})
+			if err != nil && first == nil {
+				first = err
+			}
+		}
+		br, err := rg.BlobHead(ctx, r, desc(mtLayer, f.layer1))
+		if err != nil {
+			return "", err
+		}
+		_ = br.Close()
+		return "done", first
+	}},
 	"referrer-list":       {run: referrerList},
 	"referrer-list-paged": {feat: func(f *simreg.Features) { f.PageSize = 1 }, run: referrerList},
 	"referrer-list-fb":    {feat: func(f *simreg.Features) { f.ReferrersAPI = false }, fb: true, run: referrerList},
@@ -305,6 +329,8 @@ func referrerList(ctx context.Context, rg *reg.Reg, f *fixture, r ref.Ref) (stri
 }
 
 // ---- one execution ----
+
+type concKey struct{}
 
 type hostState struct {
 	Tags      map[string]string
@@ -395,6 +421,7 @@ type l2Exec struct {
 	net     *simreg.Net
 	names   []string
 	gid     int64
+	quiet   []vtrace.Event
 }
 
 var errRunaway = errors.New("model host: run-away cut-off, identical request repeated too often")
@@ -503,10 +530,16 @@ func (x *l2Exec) l2Exec(ctx context.Context, op l2Op, done chan<- struct{}, res 
 	up := config.HostNewName(l2Up)
 	up.Hostname, up.TLS, up.Priority = l2Up, config.TLSDisabled, uint(s.UpPrio)
 	up.User, up.Pass = "user-up", "pass-up"
+	if s.Conc > 0 {
+		up.ReqConcurrent = int64(s.Conc)
+	}
 	for _, m := range s.Mirrors {
 		mh := config.HostNewName(m.Name)
 		mh.Hostname, mh.TLS, mh.Priority = m.Name, config.TLSDisabled, uint(m.Prio)
 		mh.User, mh.Pass = "user-"+m.Name, "pass-"+m.Name
+		if s.Conc > 0 {
+			mh.ReqConcurrent = int64(s.Conc)
+		}
 		hosts = append(hosts, mh)
 		up.Mirrors = append(up.Mirrors, m.Name)
 	}
@@ -524,7 +557,35 @@ func (x *l2Exec) l2Exec(ctx context.Context, op l2Op, done chan<- struct{}, res 
 		*rerr = fmt.Errorf("driver: %w", err)
 		return
 	}
-	*res, *rerr = op.run(ctx, rg, theFixture, r)
+	conc := 3
+	if s.Conc > 0 {
+		conc = s.Conc
+	}
+	*res, *rerr = op.run(context.WithValue(ctx, concKey{}, conc), rg, theFixture, r)
+	if ctx.Err() != nil {
+		return
+	}
+	// quiescence: the operation returned and closed its responses, every throttle slot must be free
+	for i, q := range rg.Throttle(r, false) {
+		name := l2Up
+		if i > 0 && i-1 < len(s.Mirrors) {
+			name = s.Mirrors[i-1].Name
+		}
+		var held []func()
+		for j := 0; j < conc; j++ {
+			done, err := q.TryAcquire(context.Background(), reqmeta.Data{})
+			if err != nil || done == nil {
+				break
+			}
+			held = append(held, done)
+		}
+		for _, d := range held {
+			d()
+		}
+		x.mu.Lock()
+		x.quiet = append(x.quiet, vtrace.Event{"ev": "quiet", "h": name, "free": len(held), "conc": conc, "t": x.clk.now()})
+		x.mu.Unlock()
+	}
 }
 
 type l2Outcome struct {
@@ -688,6 +749,9 @@ func runL2(s *l2Scn, probe bool) *vtrace.Trace {
 			"inj": bit((rq.Faulted || rq.Truncated) && !natural && !capped), "st": rq.Status, "cl": rq.Class, "seq": rq.Seq,
 			"crng": rq.Header.Get("Content-Range"), "note": rq.Note})
 	}
+	x.mu.Lock()
+	evs = append(evs, x.quiet...)
+	x.mu.Unlock()
 	if run.hang != "" {
 		evs = append(evs, vtrace.Event{"ev": "hang", "id": "-", "where": run.hang, "t": run.te})
 		meta["hang"] = run.hang
@@ -696,7 +760,8 @@ func runL2(s *l2Scn, probe bool) *vtrace.Trace {
 		meta["stall"] = run.stall
 	}
 	evs = append(evs, vtrace.Event{"ev": "result", "eqret": bit(run.ret == ff.ret),
-		"eqstate": bit(sameEffect(ff.init, ff.state, run.state)), "ret": run.ret, "t": run.te})
+		"eqstate": bit(sameEffect(ff.init, ff.state, run.state)), "ret": run.ret, "t": run.te,
+		"os": bit(s.Op == "blob-put-oneshot")})
 	meta["ret"] = run.ret
 	meta["n"] = len(log)
 	return &vtrace.Trace{ID: s.ID, Header: hdr, Events: evs, Meta: meta}
